@@ -552,8 +552,7 @@ func (this *LedgerStoreImp) SubmitBlock(block *types.Block, result store.Execute
 	if blockHeight != nextBlockHeight {
 		return fmt.Errorf("block height %d not equal next block height %d", blockHeight, nextBlockHeight)
 	}
-	var err error
-	this.vbftPeerInfoblock, err = this.verifyHeader(block.Header, this.vbftPeerInfoblock)
+	peerInfo, err := this.verifyHeader(block.Header, this.vbftPeerInfoblock)
 	if err != nil {
 		return fmt.Errorf("verifyHeader error %s", err)
 	}
@@ -562,6 +561,8 @@ func (this *LedgerStoreImp) SubmitBlock(block *types.Block, result store.Execute
 	if err != nil {
 		return fmt.Errorf("saveBlock error %s", err)
 	}
+	// the announced configuration comes into force only once the block is committed
+	this.vbftPeerInfoblock = peerInfo
 	this.delHeaderCache(block.Hash())
 	return nil
 }
@@ -578,8 +579,7 @@ func (this *LedgerStoreImp) AddBlock(block *types.Block, stateMerkleRoot common.
 	if blockHeight != nextBlockHeight {
 		return fmt.Errorf("block height %d not equal next block height %d", blockHeight, nextBlockHeight)
 	}
-	var err error
-	this.vbftPeerInfoblock, err = this.verifyHeader(block.Header, this.vbftPeerInfoblock)
+	peerInfo, err := this.verifyHeader(block.Header, this.vbftPeerInfoblock)
 	if err != nil {
 		return fmt.Errorf("verifyHeader error %s", err)
 	}
@@ -587,6 +587,11 @@ func (this *LedgerStoreImp) AddBlock(block *types.Block, stateMerkleRoot common.
 	err = this.saveBlock(block, stateMerkleRoot)
 	if err != nil {
 		return fmt.Errorf("saveBlock error %s", err)
+	}
+	// saveBlock returns nil without saving when another save is in flight: the announced configuration
+	// comes into force only once this very block is the committed tip
+	if this.GetCurrentBlockHash() == block.Hash() {
+		this.vbftPeerInfoblock = peerInfo
 	}
 	this.delHeaderCache(block.Hash())
 	return nil
